@@ -93,7 +93,6 @@ def devStr : Option Dev → String
   | none => "-"
   | some .readlineZero => "readline_zero"
   | some .writelinesEmptyRO => "writelines_empty_readonly"
-  | some .appendEmptyWrite => "append_empty_write"
 
 def devRun (fl : Flags) : IoState → List Op → List String
   | _, [] => []
